@@ -77,8 +77,17 @@ Rel == {<<0, 0, 0>>, <<0, 0, 1>>, <<0, 0, -1>>, <<0, 1, 0>>, <<0, -1, 0>>, <<1, 
         <<0, 0, 500000>>, <<0, -3600, 0>>}
 Thresholds == {<<0, 0, 0>>, <<0, 0, 1>>, <<0, 1, 0>>, <<0, -1, 0>>, <<0, 0, 500000>>, <<1, 0, 0>>,
                <<0, 0, 999999>>, <<0, 3600, 0>>, <<0, 0, -1>>}
+\* instants centuries away from the clock (year 1 .. year 9999 relative to the base
+\* date): the gap exceeds / equals / falls short of a whole-second threshold by one
+\* microsecond -- exactness at microsecond resolution over the representable range
+FarDays == {739000, -739000, 2912000}      \* year 4048, year 1, year 9997 from the base date
+FarRel == {<<d, 0, u>> : d \in FarDays, u \in {0, 1, -1}}
+FarCases == {[now |-> <<1, 0, 0>>, rel |-> r, off |-> o, form |-> f,
+              thr |-> <<IF r[1] < 0 THEN -r[1] ELSE r[1], 0, 0>>] :
+               r \in FarRel, o \in {0, 90, -1439}, f \in Forms}
 CmpCases == {[now |-> n, rel |-> r, off |-> o, form |-> f, thr |-> s] :
                n \in Lattice, r \in Rel, o \in Offsets, f \in Forms, s \in Thresholds}
+            \cup FarCases
 \* the UTC instant t denotes is now + rel (gamma renders it in the zone `off`)
 TUtc(x) == Add(x.now, x.rel)
 \* is_older_than(t, s)  <=>  now - t > s
